@@ -28,6 +28,55 @@ SortFailing(c, o) ==
           ELSE {})
 SortAccept(c, o) == SortFailing(c, o) = {}
 
+\* ---- sorting at scale: the same clauses on run-length encoded arrays ----------------------
+\* Sortedness, permutation and "pairs kept together" are O(n) predicates, and they do not need
+\* the n elements written out: an array is given as a sequence of RAMPS <<a, d, k>> (the k values
+\* a, a + d, .., a + (k-1) d; d = 0 is a plain run), an observed (keys, values) pair of arrays as
+\* a sequence of pair ramps <<a, d, b, e, k>> (keys a + j d next to values b + j e).  A thousand
+\* already sorted or reversed elements are one ramp.  SortScale.tla checks on the small scope
+\* that these clauses say exactly what SortFailing says about the written-out arrays, whatever
+\* ramps are used to write an array down (RampLaw).
+\*   case         [variant, keys : Seq(ramp), valmode : "none" | "pos" | "lin"]
+\*                "pos": the values are the positions 1..n; "lin": values[i] = 3 keys[i] + 1
+\*   observation  [err, pr : Seq(pair ramp)]      (plain variant: b = e = 0)
+RNormR(r) == IF r[2] < 0 THEN <<r[1] + (r[3] - 1) * r[2], -r[2], r[3]>> ELSE r     \* same bag, step >= 0
+RLen(rs)  == VSum([i \in DOMAIN rs |-> rs[i][3]])
+RFirst(r) == r[1]
+RLast(r)  == r[1] + (r[3] - 1) * r[2]
+RCountIn(r0, x) ==
+    LET r == RNormR(r0) IN
+    IF r[2] = 0 \/ r[3] = 1 THEN (IF x = r[1] THEN r[3] ELSE 0)
+    ELSE IF x >= r[1] /\ x <= RLast(r) /\ (x - r[1]) % r[2] = 0 THEN 1 ELSE 0
+RCount(rs, x) == VSum([i \in DOMAIN rs |-> RCountIn(rs[i], x)])
+RValues(rs)   == UNION {{rs[i][1] + j * rs[i][2] : j \in 0..(rs[i][3] - 1)} : i \in DOMAIN rs}
+RSameBag(rs, ts) == /\ RLen(rs) = RLen(ts)
+                    /\ \A x \in RValues(rs) \cup RValues(ts) : RCount(rs, x) = RCount(ts, x)
+RSorted(rs) == /\ \A i \in DOMAIN rs : rs[i][3] > 1 => rs[i][2] >= 0
+               /\ \A i \in 1..(Len(rs) - 1) : RLast(rs[i]) <= RFirst(rs[i + 1])
+\* element p (1-based) of the array the ramps stand for
+RStarts(rs) == [i \in DOMAIN rs |-> VSum([j \in 1..(i - 1) |-> rs[j][3]])]
+RAt(rs, st, p) == LET i == CHOOSE i \in DOMAIN rs : st[i] < p /\ p <= st[i] + rs[i][3]
+                  IN rs[i][1] + (p - st[i] - 1) * rs[i][2]
+PRKeys(pr) == [i \in DOMAIN pr |-> <<pr[i][1], pr[i][2], pr[i][5]>>]
+PRVals(pr) == [i \in DOMAIN pr |-> <<pr[i][3], pr[i][4], pr[i][5]>>]
+
+RPairsKept(c, o) ==
+    LET n == RLen(c.keys) IN
+    IF c.valmode = "lin"
+    THEN /\ \A i \in DOMAIN o.pr : LET r == o.pr[i] IN r[3] = 3 * r[1] + 1 /\ (r[5] > 1 => r[4] = 3 * r[2])
+         /\ RSameBag(PRKeys(o.pr), c.keys)
+    ELSE /\ RSameBag(PRVals(o.pr), << <<1, 1, n>> >>)                      \* the positions 1..n, each once
+         /\ LET st == RStarts(c.keys) IN
+            \A i \in DOMAIN o.pr : LET r == o.pr[i] IN
+               \A j \in 0..(r[5] - 1) : RAt(c.keys, st, r[3] + j * r[4]) = r[1] + j * r[2]   \* key next to where it came from
+
+SortFailingR(c, o) ==
+    IF o.err # "none" THEN {"unexpected_error"}
+    ELSE IF RLen(PRKeys(o.pr)) # RLen(c.keys) THEN {"length_changed"}
+    ELSE (IF RSorted(PRKeys(o.pr)) THEN {} ELSE {"not_sorted"}) \cup
+         (IF RSameBag(PRKeys(o.pr), c.keys) THEN {} ELSE {"not_permutation"}) \cup
+         (IF c.variant = "kv" THEN (IF RPairsKept(c, o) THEN {} ELSE {"pairs_broken"}) ELSE {})
+
 \* ---- isplit(num, nchunks) -------------------------------------------------------
 \* case         [num : Nat, nchunks : Nat \ {0}]
 \* observation  [err : STRING, starts : Seq(Int), ends : Seq(Int)]
